@@ -3,6 +3,7 @@ import ConjureVerif.Model.Uri
 import ConjureVerif.Model.Token
 import ConjureVerif.Model.Rid
 import ConjureVerif.Model.Plain
+import ConjureVerif.Model.Negotiate
 /-
 Line-protocol driver.  One operation per input line: `<property> <op> <args…>`; one output line per
 operation.  Imports models only (no Mathlib, no proofs), so it links as a native executable.
@@ -13,6 +14,7 @@ def dispatch (line : String) : String :=
   match line.trimAscii.toString.splitOn " " with
   | "C15" :: rest => SafeLong.handle rest
   | "C07" :: rest => Uri.handle rest
+  | "C11" :: rest => Negotiate.handle rest
   | "C12" :: rest => Plain.handle rest
   | "C16" :: "token" :: rest => Token.handle ("token" :: rest)
   | "C16" :: rest => Rid.handle rest
